@@ -191,6 +191,7 @@ func init() {
 		}
 		return nil
 	})
+	reg(vpPath+"Settle", func(m *Machine, fr *frame, a []Value) Value { m.settle(fr); return nil })
 	reg(vpPath+"Blocked", func(m *Machine, fr *frame, a []Value) Value { return int64(m.blockedGoroutines()) })
 	reg(vpPath+"Stub", func(m *Machine, fr *frame, a []Value) Value {
 		itf := a[1].(Iface)
